@@ -11,6 +11,7 @@ Static clauses decided (necessary conditions of C18):
  GATE   in _commit_or_rollback, commit() is reachable only through the true edge of `if can_commit`; every definition
         of can_commit is one of {True under `exc_type is None`, issubclass(exc_type, tuple(allowed_exceptions)),
         allowed_exceptions(exc)}; the false edge cannot reach an exit without rollback().
+        (round 8) Every exception edge of the allowed_exceptions predicate call reaches the raise only through a rollback, whatever the class.
  NEST   __exit__ decrements the nesting counter first and calls _commit_or_rollback only under
         `not local.db_context_counter`; _enter increments it.
  RETRY  the decorator's loop is `for ... in range(db_session.retry+1)` (bounded, no while-loop); in the handler the next
@@ -101,6 +102,18 @@ def run(ctx):
         ok = bool(rb) and g.exit.id not in rr and g.raise_.id not in rr
         ctx.ob('C18-GATE.else-rolls-back', cr, t.stmt, ok,
                '' if ok else 'the not-can_commit branch can leave without rollback()')
+    # a failure of the decision itself (round 8): the allowed_exceptions predicate is user code and may raise anything -- KeyboardInterrupt and
+    # SystemExit included; whatever it raises, nothing may be committed, so every exception edge of the predicate call reaches the raise only
+    # through a rollback (a handler narrowed to one exception family leaves the modified cache registered, and the next session commits it)
+    pc_ = nodes_calling(g, lambda c: isinstance(c.func, ast.Attribute) and c.func.attr == 'allowed_exceptions' or isinstance(c.func, ast.Name) and 'allowed' in c.func.id)
+    rbs_ = nodes_calling(g, lambda c: isinstance(c.func, ast.Name) and c.func.id in ('rollback_and_reraise', 'rollback'))
+    okp = bool(pc_) and bool(rbs_)
+    for n_ in pc_:
+        es_ = [y for y, lab in g.succ[n_.id] if lab == 'exc']
+        if g.raise_.id in g.reach(es_, avoid=rbs_): okp = False
+    ctx.ob('C18-GATE.failing-predicate-rolls-back', cr, pc_[0].ast if pc_ else cr.node, okp,
+           '' if okp else 'an exception raised by the allowed_exceptions predicate can leave _commit_or_rollback without rollback(): the changes of the failed body '
+           'stay in the session cache of the thread and are committed by the next db_session')
     # the decision itself: evaluate the function for "an exception is present and the session does not allow it" (exc_type is not None; neither
     # issubclass(exc_type, allowed_exceptions) nor the allowed_exceptions predicate says yes), tracking local flags; commit() must be
     # unreachable.  Whatever else the decision might consult is unknown (both outcomes explored), so a decision based on anything but the
@@ -328,6 +341,7 @@ def run(ctx):
 
 
 MUTANTS = [
+    dict(id='C18-p8', file='pony/orm/core.py', fn='DBSessionContextManager._commit_or_rollback', old='                except: rollback_and_reraise(sys.exc_info())', new='                except Exception: rollback_and_reraise(sys.exc_info())', expect='C18-GATE.failing-predicate-rolls-back'),
     dict(id='C18-susp', file='pony/orm/core.py', fn='DBSessionContextManager._wrap_coroutine_or_generator_function', old="                        if cache.modified or cache.in_transaction: throw(TransactionError,", new="                        if cache.modified and cache.in_transaction: throw(TransactionError,", expect='C18-GEN.suspension'),
     dict(id='C18-m1', file='pony/orm/core.py', fn='DBSessionContextManager._commit_or_rollback',
          old='if exc_type is None: can_commit = True', new='if exc is None: can_commit = True', expect='C18-GATE.disallowed-exception-never-commits'),
